@@ -232,8 +232,16 @@ Print bad.
         attempts = sum(1 for c in cases for e in c["obs"]["events"] if e["k"] == "publish")
         resends = sum(1 for c in cases for e in c["obs"]["events"] if e["k"] == "resend")
         offered = sum(len(e.get("offered") or []) for c in cases for e in c["obs"]["events"] if e["k"] == "resend")
+        src, detail = "unknown", ""
+        try:
+            txt = open(os.path.join(COQ, "Generated", "PublishFacts.v")).read()
+            m = re.search(r"\(\* facts source: (\w+)(.*?)\*\)", txt, re.S)
+            if m:
+                src, detail = m.group(1), re.sub(r"\s+", " ", m.group(2)).strip()
+        except OSError:
+            pass
         return dict(broadcast_attempts=attempts, rebroadcasts=resends, rebroadcast_offers=offered,
-                    oracle_kinds_at_sites=kinds)
+                    oracle_kinds_at_sites=kinds, facts_source=src, facts_source_detail=detail)
 
     def shrink(self, case, kind):
         """Delta debugging over the script: drop ops while the harness still
